@@ -30,13 +30,16 @@ PID = "C15"
 # indices into CoordConv!PythagoreanPoints (= geom.BASE_POINTS), 1-based; CoordConv!TestVectors
 TIERS = {
     "quick": dict(
-        paths=[dict(MaxDepth=4, PointIdx={1, 5}, Octants={1, 4, 6, 7}, VecIdx={1}),
-               dict(MaxDepth=3, PointIdx={2, 3, 6}, Octants={2, 3, 5, 8}, VecIdx={5})],
+        paths=[dict(MaxDepth=4, PointIdx={1, 5}, Octants={1, 4, 6, 7}, VecIdx={1}, Forms={"plain"}),
+               dict(MaxDepth=3, PointIdx={2, 3, 6}, Octants={2, 3, 5, 8}, VecIdx={5}, Forms={"plain"}),
+               # base vectors nested inside cross / dot products
+               dict(MaxDepth=3, PointIdx={1, 2}, Octants={4, 6}, VecIdx={1, 5}, Forms={"cross", "dot"})],
         matrix_points=geom.octant_points(geom.SMALL_POINTS)),
     "thorough": dict(
-        paths=[dict(MaxDepth=5, PointIdx={5}, Octants={1, 4, 6, 7}, VecIdx={1}),
-               dict(MaxDepth=4, PointIdx={1, 2, 3, 4, 6, 7, 8, 9, 10, 11, 12}, Octants={2, 7}, VecIdx={5}),
-               dict(MaxDepth=3, PointIdx={1, 2, 3}, Octants={1, 2, 3, 4, 5, 6, 7, 8}, VecIdx={2, 3, 4})],
+        paths=[dict(MaxDepth=5, PointIdx={5}, Octants={1, 4, 6, 7}, VecIdx={1}, Forms={"plain"}),
+               dict(MaxDepth=4, PointIdx={1, 2, 3, 4, 6, 7, 8, 9, 10, 11, 12}, Octants={2, 7}, VecIdx={5}, Forms={"plain"}),
+               dict(MaxDepth=3, PointIdx={1, 2, 3}, Octants={1, 2, 3, 4, 5, 6, 7, 8}, VecIdx={2, 3, 4}, Forms={"plain"}),
+               dict(MaxDepth=4, PointIdx={1, 2, 5}, Octants={1, 4, 6, 7}, VecIdx={1, 2, 5}, Forms={"cross", "dot"})],
         matrix_points=geom.octant_points(geom.SMALL_POINTS)),
 }
 INVARIANTS = ["TypeOK", "GeometryInvariant", "OffAxis", "AllPairsOffered"]
@@ -47,26 +50,44 @@ GROUP_SECONDS = 900
 
 _SYS = None
 _SYS2 = None
+_SYS3 = None
 
 
 def _init():
-    global _SYS, _SYS2  # pylint: disable=global-statement
+    """Three instances of every kind of system: two default ones and one with the user's own base scalars."""
+    global _SYS, _SYS2, _SYS3  # pylint: disable=global-statement
     if _SYS is None:
         from symplyphysics.core.experimental import coordinate_systems as cs   # before ..points (import cycle)
+        from symplyphysics import Symbol, angle_type, units
         _SYS = {"cart": cs.CartesianCoordinateSystem(), "cyl": cs.CylindricalCoordinateSystem(),
                 "sph": cs.SphericalCoordinateSystem()}
         _SYS2 = {"cart": cs.CartesianCoordinateSystem(), "cyl": cs.CylindricalCoordinateSystem(),
                  "sph": cs.SphericalCoordinateSystem()}
+        length, angle = units.length, angle_type
+        _SYS3 = {
+            "cart": cs.CartesianCoordinateSystem(base_scalars=[Symbol("u1", length, real=True), Symbol("u2", length, real=True),
+                                                               Symbol("u3", length, real=True)]),
+            "cyl": cs.CylindricalCoordinateSystem(base_scalars=[Symbol("v1", length, nonnegative=True), Symbol("v2", angle, real=True),
+                                                                Symbol("v3", length, real=True)]),
+            "sph": cs.SphericalCoordinateSystem(base_scalars=[Symbol("w1", length, nonnegative=True),
+                                                              Symbol("w2", angle, nonnegative=True), Symbol("w3", angle, real=True)]),
+        }
     return _SYS
+
+
+def _sets():
+    _init()
+    return (_SYS, _SYS2, _SYS3)
 
 
 def _kind(system):
     for k, s in _init().items():
         if s is system:
             return k
-    for k, s in _SYS2.items():
-        if s is system:
-            return k
+    for other in (_SYS2, _SYS3):
+        for k, s in other.items():
+            if s is system:
+                return k
     return type(system).__name__
 
 
@@ -116,25 +137,71 @@ def make_vector(vec, kind, point):
     return out
 
 
-def vector_components(vector, point):
-    """Coefficients of the vector in the base vectors of point.system at the point, or None."""
+class Unevaluable(Exception):
+    """The expression contains a vector that is not a base vector of the system at the point."""
+
+
+def eval_vector(expr, frame):
+    """Cartesian components of a vector expression over the base vectors in `frame` (base vector -> Cartesian
+    triple): sums, scalar multiples, cross products; scalar factors may contain dot products and norms."""
     import sympy as sp
-    e = sp.expand(vector)
-    bases = point.system.base_vectors(point)
-    comps = [e.coeff(b) for b in bases]
-    rest = sp.expand(e - sum(c * b for c, b in zip(comps, bases)))
-    if rest != 0:
-        return None
-    return comps
+    from symplyphysics.core.experimental.vectors import VectorCross, is_vector_expr
+    expr = sp.sympify(expr)
+    if expr == 0:
+        return [sp.S.Zero] * 3
+    if expr in frame:
+        return [sp.sympify(c) for c in frame[expr]]
+    if isinstance(expr, sp.Add):
+        parts = [eval_vector(a, frame) for a in expr.args]
+        return [sum(p[i] for p in parts) for i in range(3)]
+    if isinstance(expr, sp.Mul):
+        vectors = [a for a in expr.args if not a.is_number and is_vector_expr(a)]
+        if len(vectors) != 1:
+            raise Unevaluable(expr)
+        factor = sp.Mul(*[eval_scalar(a, frame) for a in expr.args if a is not vectors[0]])
+        return [factor * c for c in eval_vector(vectors[0], frame)]
+    if isinstance(expr, VectorCross):
+        p, q = (eval_vector(a, frame) for a in expr.args)
+        return [p[1] * q[2] - p[2] * q[1], p[2] * q[0] - p[0] * q[2], p[0] * q[1] - p[1] * q[0]]
+    raise Unevaluable(expr)
+
+
+def eval_scalar(expr, frame):
+    import sympy as sp
+    from symplyphysics.core.experimental.vectors import VectorDot, VectorNorm, is_vector_expr
+    if isinstance(expr, VectorDot):
+        p, q = (eval_vector(a, frame) for a in expr.args)
+        return sum(x * y for x, y in zip(p, q))
+    if isinstance(expr, VectorNorm):
+        p = eval_vector(expr.args[0], frame)
+        return sp.sqrt(sum(x * x for x in p))
+    if not expr.args:
+        if not expr.is_number and is_vector_expr(expr):
+            raise Unevaluable(expr)
+        return expr
+    return expr.func(*[eval_scalar(a, frame) for a in expr.args])
 
 
 def project_vector(vector, kind, point):
-    import sympy as sp
-    comps = vector_components(vector, point)
-    if comps is None:
-        return None
+    """Cartesian components of the (possibly nested) vector expression, or None when it contains vectors that are
+    not base vectors of the point's system at the point."""
     fr = frame(kind, list(point.coordinates.values()))
-    return [sum(c * sp.sympify(e[j]) for c, e in zip(comps, fr)) for j in range(3)]
+    try:
+        return eval_vector(vector, dict(zip(point.system.base_vectors(point), fr)))
+    except Unevaluable:
+        return None
+
+
+def make_form(start, point):
+    """The attached vector of the start state as the expression the model names (plain / cross / dot)."""
+    from symplyphysics.core.experimental.vectors import VectorCross, VectorDot
+    a = make_vector(start["opa"], start["vsys"], point)
+    if start["form"] == "plain":
+        return a
+    b = make_vector(start["opb"], start["vsys"], point)
+    if start["form"] == "cross":
+        return VectorCross(a, b)
+    return b * VectorDot(a, b)
 
 
 # ---------------------------------------------------------------------------------------------------------
@@ -168,7 +235,7 @@ def observe(ctx, where, state, snap, start_coords):
                     lambda: f"{want_sys} coordinates {list(pt.coordinates.values())} project to")
     cartv = project_vector(V, snap["vsys"], Q)
     if cartv is None:
-        ctx.problems.append((where, "vector basis", f"the converted vector is not a combination of the {snap['vsys']} base vectors at its point: {V}"))
+        ctx.problems.append((where, "vector basis", f"the converted vector contains vectors that are not {snap['vsys']} base vectors at its point: {V}"))
     else:
         for i, (c, w) in enumerate(zip(cartv, snap["vec"])):
             ctx.cmp(where, f"vector component[{i}]", c, w, lambda: f"{snap['vsys']} vector {sp.expand(V)} projects to")
@@ -193,7 +260,7 @@ def replay_group(group):
         with time_limit(STEP_SECONDS):
             P = make_point(start["pos"], start["psys"])
             Q = make_point(start["pos"], start["vsys"])
-            V = make_vector(start["vec"], start["vsys"], Q)
+            V = make_form(start, Q)
             start_coords = (start["psys"], coords_of(start["pos"], start["psys"]))
             observe(ctx, (-1, 0), (P, V, Q), start, start_coords)
     except HardTimeout:
@@ -259,20 +326,34 @@ def _exact(expr, ctx_notes):
 
 
 def record_point(args):
+    """All three instances of the systems at one point, in this order and in one process (a per-kind cache inside
+    the library would serve the first instance's data to the later ones)."""
     rid, pos = args
+    return [_record_instance(rid * 3 + inst, pos, inst) for inst in range(3)]
+
+
+def _record_instance(rid, pos, inst):
     import sympy as sp
-    sy = _init()
+    sets = _sets()
+    sy, other = sets[inst], sets[(inst + 1) % 3]
     from symplyphysics.core.experimental.coordinate_systems import express_base_scalars, express_base_vectors
     notes, problems = [], []
-    rec = {"id": rid, "p": list(pos), "T": {}, "J": {}, "h": {}}
+    rec = {"id": rid, "p": list(pos), "inst": inst, "T": {}, "J": {}, "h": {}}
+
+    def entry(name, expr):
+        val = _exact(expr, notes)
+        if val is None:
+            problems.append((name, f"{name} at {list(pos)} (instance {inst + 1} of the system) is not a rational number: {expr}"))
+        return val
+
     try:
         with time_limit(300):
-            pts = {k: make_point(pos, k) for k in SYSTEMS}
-            pts2 = {k: make_point(pos, k, _SYS2) for k in SYSTEMS}
+            pts = {k: make_point(pos, k, sy) for k in SYSTEMS}
+            pts2 = {k: make_point(pos, k, other) for k in SYSTEMS}
             for a in SYSTEMS:
                 rec["T"][a] = {}
                 for b in SYSTEMS:
-                    new_sys, new_pt = (sy[b], pts[b]) if a != b else (_SYS2[b], pts2[b])
+                    new_sys, new_pt = (sy[b], pts[b]) if a != b else (other[b], pts2[b])
                     mapping = express_base_vectors(sy[a], new_sys, old_args=(pts[a],), new_args=(new_pt,))
                     old_bases, new_bases = sy[a].base_vectors(pts[a]), new_sys.base_vectors(new_pt)
                     mat = [[None] * 3 for _ in range(3)]
@@ -285,26 +366,24 @@ def record_point(args):
                         for j, nb in enumerate(new_bases):
                             c = e.coeff(nb)
                             rest = rest - c * nb
-                            mat[j][i] = _exact(c, notes)
+                            mat[j][i] = entry(f"T[{a}][{b}][{j + 1}][{i + 1}]", c)
                         if sp.expand(rest) != 0:
                             problems.append((f"T[{a}][{b}]", f"image of base vector {i + 1} is not a combination of the new base vectors: {e}"))
                     rec["T"][a][b] = mat
                 # position as a function of this system's scalars, from the real scalar tables
                 old_cart = sy["cart"]
-                new_sys, new_pt = (sy[a], pts[a]) if a != "cart" else (_SYS2["cart"], pts2["cart"])
+                new_sys, new_pt = (sy[a], pts[a]) if a != "cart" else (other["cart"], pts2["cart"])
                 scal = express_base_scalars(old_cart, new_sys)
                 xs = [scal[s] for s in old_cart.base_scalars]
                 qs = list(new_sys.base_scalars)
-                rec["J"][a] = [[_exact(sp.diff(xs[j], qs[i]).subs(new_pt.coordinates), notes) for i in range(3)] for j in range(3)]
-                rec["h"][a] = [_exact(sp.sympify(h).subs(new_pt.coordinates), notes) for h in new_sys.lame_coefficients]
+                rec["J"][a] = [[entry(f"J[{a}][{j + 1}][{i + 1}]", sp.diff(xs[j], qs[i]).subs(new_pt.coordinates)) for i in range(3)]
+                               for j in range(3)]
+                rec["h"][a] = [entry(f"lame_coefficients[{a}][{i + 1}]", sp.sympify(h).subs(new_pt.coordinates))
+                               for i, h in enumerate(new_sys.lame_coefficients)]
     except HardTimeout:
         return rid, None, [], ["matrix record timed out (SymPy)"]
-    flat = [x for a in SYSTEMS for b in SYSTEMS for row in rec["T"][a][b] for x in row] + \
-           [x for a in SYSTEMS for row in rec["J"][a] for x in row] + [x for a in SYSTEMS for x in rec["h"][a]]
     if problems:
         return rid, None, problems, notes
-    if any(x is None for x in flat):
-        return rid, None, [("tables", "an entry of a conversion table is not a rational number at a Pythagorean point")], notes
     for a in SYSTEMS:
         for b in SYSTEMS:
             rec["T"][a][b] = [[rat(x) for x in row] for row in rec["T"][a][b]]
@@ -317,7 +396,7 @@ def validate_matrices(run, sc, recs, label="real"):
     path = sc / f"cc_trace_{label}.json"
     path.write_text(json.dumps(recs))
     cfg = write_cfg(sc / f"cct_{label}.cfg", init="TInit", next_="TNext",
-                    constants={"MaxDepth": 1, "PointIdx": {1}, "Octants": {1}, "VecIdx": {1}},
+                    constants={"MaxDepth": 1, "PointIdx": {1}, "Octants": {1}, "VecIdx": {1}, "Forms": {"plain"}},
                     invariants=["Checked"], postcondition="AllConsumed")
     res = run_tlc("CoordConvTrace", cfg, sc, workers=1, env={"TRACE_FILE": str(path)}, allow_violation=False)
     path.unlink()
@@ -345,7 +424,7 @@ def _groups(cases):
         st = case["start"]
         if not geom.is_pythagorean(st["pos"]):
             raise RuntimeError(f"the model emitted a non-Pythagorean point {st['pos']}")
-        key = (tuple(st["pos"]), tuple(st["vec"]), st["psys"], st["vsys"])
+        key = (tuple(st["pos"]), tuple(st["vec"]), st["psys"], st["vsys"], st["form"], tuple(st["opa"]))
         groups.setdefault(key, dict(start=st, paths=[]))["paths"].append((idx, case["path"]))
     out = list(groups.values())
     for gid, g in enumerate(out):
@@ -405,20 +484,21 @@ def main() -> int:
                     st = g["start"]
                     for (idx, stepno), clause, what in sorted(problems, key=lambda pr: (pr[0][1], pr[0][0])):
                         path = paths.get(idx, [])
-                        key = f"pos={st['pos']} vec={st['vec']} start={st['psys']} path=[{_acts(path[:stepno])}]: {clause}"
+                        key = f"pos={st['pos']} vec={st['form']}{st['opa']} start={st['psys']} path=[{_acts(path[:stepno])}]: {clause}"
                         report(run, key, what, {"kind": "path", "start": st, "path": path[:max(stepno, 0)]})
                 run.coverage.setdefault("real_steps_executed", {})[f"paths{n}"] = steps
             # code -> spec
             recs, by_id = [], {}
-            for rid, rec, problems, notes in pmap(pool, record_point, list(enumerate(t["matrix_points"])), chunk=2):
-                pos = t["matrix_points"][rid]
-                for note in notes:
-                    run.outside(note)
-                for clause, what in problems:
-                    report(run, f"tables at {list(pos)}: {clause}", what, {"kind": "matrix", "pos": list(pos)})
-                if rec is not None:
-                    recs.append(rec)
-                    by_id[rid] = rec
+            for triple in pmap(pool, record_point, list(enumerate(t["matrix_points"])), chunk=2):
+                for rid, rec, problems, notes in triple:
+                    pos = t["matrix_points"][rid // 3]
+                    for note in notes:
+                        run.outside(note)
+                    for clause, what in problems:
+                        report(run, f"tables at {list(pos)} instance {rid % 3 + 1}: {clause}", what, {"kind": "matrix", "pos": list(pos)})
+                    if rec is not None:
+                        recs.append(rec)
+                        by_id[rid] = rec
         recs.sort(key=lambda r: r["id"])
         failing = validate_matrices(run, sc, recs)
         run.traces += len(recs)
@@ -428,8 +508,8 @@ def main() -> int:
             rec = by_id[rid]
             for clause, where in bad.items():
                 for w in where:
-                    report(run, f"tables at {rec['p']}: {clause} {w}",
-                                  f"TLC rejects {clause} for {w} on the recorded real tables at {rec['p']}",
+                    report(run, f"tables at {rec['p']} instance {rec['inst'] + 1}: {clause} {w}",
+                                  f"TLC rejects {clause} for {w} on the recorded real tables at {rec['p']} (instance {rec['inst'] + 1})",
                                   {"kind": "matrix", "pos": rec["p"], "clause": clause, "where": w})
         selftest(run, sc, [r for r in recs if r["id"] not in failing])
     run.assumptions += [
@@ -474,12 +554,13 @@ def replay_file(path: str) -> int:
         _, problems, _, _ = replay_group(dict(start=c["start"], paths=[(0, c["path"])], gid=0))
         bad = [f"{clause}: {what}" for _, clause, what in problems]
     else:
-        _, rec, problems, _ = record_point((0, tuple(c["pos"])))
-        bad = [f"{clause}: {what}" for clause, what in problems]
-        if rec is not None:
+        triple = record_point((0, tuple(c["pos"])))
+        bad = [f"{clause}: {what}" for _, _, problems, _ in triple for clause, what in problems]
+        recs = [rec for _, rec, _, _ in triple if rec is not None]
+        if recs:
             with Scratch() as sc:
-                failing = validate_matrices(Run(PID, "replay"), sc, [rec], "replay")
-            bad += [f"{cl} {w}" for cl, ws in failing.get(0, {}).items() for w in ws]
+                failing = validate_matrices(Run(PID, "replay"), sc, recs, "replay")
+            bad += [f"{cl} {w}" for f in failing.values() for cl, ws in f.items() for w in ws]
     for b in bad:
         print(f"VIOLATION property={PID} replay={path}\n  {b}")
     print("replayed:", data["key"], "->", "violation" if bad else "ok")
